@@ -184,7 +184,16 @@ func (r *replica) age(placed []lstore.Obj) {
 	}
 }
 
-func mkReplicator(kind string, source, sink blobstore.BlobAccess) replication.BlobReplicator {
+// mkReplicator wires the strategy by hand (configured == false) or lets the repository's own
+// NewBlobReplicatorFromConfiguration do it (the choice is a free choice of every execution).
+func mkReplicator(kind string, source, sink blobstore.BlobAccess, configured bool) replication.BlobReplicator {
+	if configured {
+		r, err := lstore.ConfiguredReplicator(kind, source, sink, digest.KeyWithoutInstance, 4, time.Minute)
+		if err != nil {
+			vsched.HarnessFail("NewBlobReplicatorFromConfiguration(%s): %v", kind, err)
+		}
+		return r
+	}
 	base := replication.NewLocalBlobReplicator(source, sink)
 	switch kind {
 	case "dedup":
@@ -199,7 +208,7 @@ func mkReplicator(kind string, source, sink blobstore.BlobAccess) replication.Bl
 	return base
 }
 
-func newWorld(local bool, repl string, placement int) *world {
+func newWorld(local bool, repl string, placement int, wiringChoice bool) *world {
 	w := &world{local: local}
 	w.a = newReplica("replica A", local, w)
 	w.b = newReplica("replica B", local, w)
@@ -220,7 +229,10 @@ func newWorld(local bool, repl string, placement int) *world {
 	}
 	w.a.age(pa)
 	w.b.age(pb)
-	w.m = mirrored.NewMirroredBlobAccess(w.a.ba, w.b.ba, mkReplicator(repl, w.a.ba, w.b.ba), mkReplicator(repl, w.b.ba, w.a.ba))
+	// sequential scenarios on model replicas: hand-wired or configuration-built replicators (free choice);
+	// local-store replicas and the concurrent scenarios (many executions): always the configuration-built ones
+	configured := !wiringChoice || vsched.ChooseFree("replicators built by NewBlobReplicatorFromConfiguration", 2) == 1
+	w.m = mirrored.NewMirroredBlobAccess(w.a.ba, w.b.ba, mkReplicator(repl, w.a.ba, w.b.ba, configured), mkReplicator(repl, w.b.ba, w.a.ba, configured))
 	return w
 }
 
@@ -389,7 +401,7 @@ func (w *world) findMissing(mask int) {
 func body(local bool, repl string, depth, faults int) func() {
 	return func() {
 		placement := vsched.ChooseFree("choice", 16)
-		w := newWorld(local, repl, placement)
+		w := newWorld(local, repl, placement, !local)
 		for step := 0; step < depth; step++ {
 			w.budget = faults - len(w.seen)
 			k := vsched.ChooseFree("choice", 9)
@@ -429,7 +441,7 @@ func concBody(repl string) func() {
 	return func() {
 		sel := vsched.ChooseFree("choice", 2)
 		placement := []int{1 | 2<<2, 2 | 3<<2}[sel] // (X,Z): (A only, B only) (B only, both)
-		w := newWorld(false, repl, placement)
+		w := newWorld(false, repl, placement, false)
 		X, Z := w.objs[0], w.objs[1]
 		w.budget = 1
 		type res struct {
